@@ -551,6 +551,122 @@ def run(project, chk):
         ok = lo[0] == "call" and "parse_rule_list" in str(lo[1])
         chk.check(ok, "X7", fi.short, norm_text(lst), project.loc(m, c), "nested rules are the lossless parse of the at-rule's content", how=oshow(lo)[:80], message=f"the nested node list is {oshow(lo)[:80]}")
 
+    report_card(project, chk)
+
+    # ------------------------------------------------------------ X11
+    chk.rule("X11", "a regex match that may be None is dereferenced only under a test of it: otherwise the rule's processing raises after part of its bookkeeping "
+                    "was done (a rule counted twice, or counted as adjusted and never written)")
+    from checks import _optional
+    cli_funcs = [q for q, f2 in project.funcs.items() if f2.module.name == CLI and q not in project.outside_surface]
+    n_sites = _optional.check(project, chk, "X11", cli_funcs, "escapes into the per-rule handler, which counts the rule again as needing attention")
+    chk.floor("dereferences of regex matches in cli/main.py", n_sites, 4)
+
+
+REPORT = "cm_colors.cli.html_report.generate_report"
+SHOWN = ("selector", "bg", "original_text", "tuned_text", "original_level", "new_level")
+BEFORE, AFTER = {"original_text", "original_level"}, {"tuned_text", "new_level"}
+
+
+def item_keys(o, out=None):
+    """String keys under which an origin tree reads a record (`pair["k"]`, `pair.get("k")`)."""
+    out = set() if out is None else out
+    if isinstance(o, frozenset):
+        for x in o:
+            item_keys(x, out)
+        return out
+    if not isinstance(o, tuple) or not o:
+        return out
+    if o[0] == "item" and isinstance(o[2], str):
+        out.add(o[2])
+    if o[0] == "index" and isinstance(o[2], tuple) and o[2][:1] == ("const",) and isinstance(o[2][1], str):
+        out.add(o[2][1])
+    if o[0] == "call" and o[1] in (".get", "dict.get") and o[2] and o[2][0][:1] == ("const",) and isinstance(o[2][0][1], str):
+        out.add(o[2][0][1])
+    for x in o:
+        if isinstance(x, (tuple, frozenset)):
+            item_keys(x, out)
+    return out
+
+
+def report_card(project, chk):
+    """X10: the HTML report shows, per adjusted rule, the fields the CLI recorded for it, each on its own side of the card."""
+    chk.rule("X10", "report cards: every field the CLI records for an adjusted rule (selector, background, before/after colour and level) is read by the report, "
+                    "and no 'before' field is shown on the 'after' side of a card or vice versa")
+    fi = project.funcs.get(PNR)
+    rep = project.funcs.get(REPORT)
+    if fi is None or rep is None:
+        raise AnalysisError(f"anchor moved: {PNR} / {REPORT}")
+    recorded = None
+    for c in own_nodes(fi.node):
+        if isinstance(c, ast.Call) and isinstance(c.func, ast.Attribute) and c.func.attr == "append" and "fixed_details" in norm_text(c.func.value) and c.args and isinstance(c.args[0], ast.Dict):
+            recorded = {k.value for k in c.args[0].keys if isinstance(k, ast.Constant) and isinstance(k.value, str)}
+    if recorded is None:
+        chk.not_decided.append("X10: the record appended to fixed_details is not a dict display; its keys were not compared with the report's")
+        return
+    # (a) every recorded field the property names is read somewhere in the report code (the function, its nested functions and the
+    #     private helpers / classes of its module that are not part of the pinned surface)
+    m = rep.module
+    scope_nodes = [rep.node]
+    for q, f2 in project.funcs.items():
+        if f2.module is m and f2 is not rep and (q in project.transparent or q in project.outside_surface or f2.short.split(".")[-1].startswith("_") or (f2.cls and f2.cls.startswith("_"))):
+            scope_nodes.append(f2.node)
+    for st in m.tree.body:
+        if isinstance(st, (ast.Assign, ast.AnnAssign)):
+            scope_nodes.append(st)
+    consts = {n.value for root in scope_nodes for n in ast.walk(root) if isinstance(n, ast.Constant) and isinstance(n.value, str)}
+    wholesale = any(isinstance(n, ast.Call) and isinstance(n.func, ast.Attribute) and n.func.attr in ("values", "items") for n in ast.walk(rep.node)) or \
+        any(isinstance(n, ast.keyword) and n.arg is None for n in ast.walk(rep.node))
+    for k in SHOWN:
+        if k not in recorded:
+            continue
+        chk.check(k in consts or wholesale, "X10", rep.short, f"record field {k!r}", project.loc(m, rep.node), f"the report reads the recorded field {k!r}",
+                  how="the key is named in the report code", message=f"the CLI records {k!r} for every adjusted rule but the report never reads it: the card cannot show it")
+    # (b) sides of a card: between two uses of the background, the holes show only 'before' fields or only 'after' fields
+    org = Origins(project, rep)
+
+    def keyseq(nid, e, depth=0):
+        if depth > 6:
+            return [None]
+        if isinstance(e, ast.JoinedStr):
+            out = []
+            for part in e.values:
+                if isinstance(part, ast.FormattedValue):
+                    out += keyseq(nid, part.value, depth + 1)
+            return out
+        o = org.of(nid, e)
+        if isinstance(o, tuple) and o[:1] == ("fstr",) and o[1] in org.fstrings:
+            e2, nid2 = org.fstrings[o[1]]
+            return keyseq(nid2, e2, depth + 1)
+        ks = item_keys(o)
+        return [frozenset(ks)] if ks else [None]
+    n_cards = 0
+    for node in org.cfg.nodes:
+        for e in node_exprs(node):
+            for js in ast.walk(e):
+                if not isinstance(js, ast.JoinedStr):
+                    continue
+                seq = keyseq(node.id, js)
+                if None in seq or sum(1 for ks in seq if "bg" in ks) < 2:
+                    continue
+                n_cards += 1
+                sides, cur = [], None
+                for ks in seq:
+                    if "bg" in ks:
+                        cur = set()
+                        sides.append(cur)
+                    if cur is not None:
+                        cur |= set(ks)
+                mixed = [sd for sd in sides if sd & BEFORE and sd & AFTER]
+                chk.check(not mixed, "X10", rep.short, "card template", project.loc(m, js), "each colour box of the card shows either the original colour and level or the adjusted colour and level",
+                          how=f"{len(sides)} box(es): {[sorted(sd - {'bg'}) for sd in sides]}", message=f"a colour box of the card mixes 'before' and 'after' fields: {[sorted(sd - {'bg'}) for sd in mixed]}")
+                shown_after = set().union(*sides) if sides else set()
+                for k in ("original_text", "tuned_text"):
+                    if k in recorded:
+                        chk.check(k in shown_after, "X10", rep.short, f"card field {k!r}", project.loc(m, js), f"a colour box of the card is painted with / labelled by {k!r}", how="value flow from the record to the template holes",
+                                  message=f"no colour box of the card shows {k!r}")
+    if not n_cards:
+        chk.note("X10: the card template is not an f-string whose holes resolve to record fields; only the field census (a) was decided")
+
 
 def mentions_parse(o) -> bool:
     """Does an origin tree contain a parse_declaration_list call?"""
